@@ -1377,3 +1377,58 @@ func Size(ts ...*Term) int {
 }
 
 var _ = bits.Len
+
+// AlphaEq reports whether a and b are equal up to renaming of bound variables.
+func AlphaEq(a, b *Term) bool {
+	type pair struct{ a, b *Term }
+	memo := map[pair]bool{}
+	var rec func(a, b *Term, m map[*Term]*Term) bool
+	rec = func(a, b *Term, m map[*Term]*Term) bool {
+		if a == b && !a.hasBound {
+			return true
+		}
+		if a.Op != b.Op || a.Sort != b.Sort || len(a.Args) != len(b.Args) || len(a.BVars) != len(b.BVars) {
+			return false
+		}
+		if len(a.Args) == 0 && len(a.BVars) == 0 {
+			if x, ok := m[a]; ok {
+				return x == b
+			}
+			return a == b
+		}
+		if a.Name != b.Name || a.Val != b.Val {
+			return false
+		}
+		closed := !a.hasBound && !b.hasBound
+		if closed {
+			if r, ok := memo[pair{a, b}]; ok {
+				return r
+			}
+		}
+		m2 := m
+		if len(a.BVars) > 0 {
+			m2 = map[*Term]*Term{}
+			for k, v := range m {
+				m2[k] = v
+			}
+			for i := range a.BVars {
+				if a.BVars[i].Sort != b.BVars[i].Sort {
+					return false
+				}
+				m2[a.BVars[i]] = b.BVars[i]
+			}
+		}
+		ok := true
+		for i := range a.Args {
+			if !rec(a.Args[i], b.Args[i], m2) {
+				ok = false
+				break
+			}
+		}
+		if closed {
+			memo[pair{a, b}] = ok
+		}
+		return ok
+	}
+	return rec(a, b, map[*Term]*Term{})
+}
